@@ -8,6 +8,8 @@ mod ghost;
 mod minimise;
 mod monitors;
 mod monitors2;
+mod monitors3;
+mod scenario;
 mod prng;
 mod profiles;
 mod refmodel;
@@ -227,6 +229,7 @@ fn cmd_run(args: &BTreeMap<String, String>) -> i32 {
             println!("cluster voters {:?} learners {:?} initial ({}, {})", c.voters, c.learners, c.initial_index, c.initial_term);
             println!("node cfg 1: {:?}", c.nodes.values().next().unwrap());
             let mut w = World::new(c.clone());
+            w.verbose = args.contains_key("sub");
             let mut last_line = String::new();
             for (i, a) in t.iter().enumerate() {
                 let res = w.apply(a);
@@ -242,7 +245,7 @@ fn cmd_run(args: &BTreeMap<String, String>) -> i32 {
                                 x.id, if x.running() {"up"} else {"DOWN"}, o.role, o.term, o.leader_id, o.commit, o.applied, o.persisted, o.last_index, o.last_term, o.first_index,
                                 o.unst_offset, o.unst_len, o.snap_index, x.sm.applied, x.apply_q.len(), x.outstanding.len(), x.disk.wq.len(),
                                 x.disk.durable.hs.term, x.disk.durable.hs.commit, x.disk.durable.last_index(), x.disk.durable.trunc_index, x.disk.durable.app.applied);
-                            let line = format!("{} prs {:?} gc{}", line, o.prs.iter().map(|p| (p.id, p.matched, p.next_idx, p.group)).collect::<Vec<_>>(), o.group_commit);
+                            let line = format!("{} prs {:?} gc{}", line, o.prs.iter().map(|p| (p.id, p.matched, p.next_idx, format!("{:?}{}{}", p.state, if p.paused {"P"} else {""}, p.pending_snapshot), p.win.len(), p.cap, p.pending_request_snapshot)).collect::<Vec<_>>(), o.group_commit);
                             if last_line != line {
                                 println!("#{} {}\n      {}", i + 1, serde_json::to_string(a).unwrap(), line);
                                 last_line = line;
